@@ -76,6 +76,7 @@ TrAdapt ==
     \* acceptance statistics of the draws so far (early windows: mean_tree_accept, later: the symmetric one),
     \* replayed harness-side from the draws' own statistics, 1e-9
     /\ R.daok
+    /\ R.barok
     \* C07: the acceptance statistics themselves are the documented functions of the energy errors of the
     \* trajectory's leapfrogs (harness-side recomputation from the leapfrog hook events, 1e-12)
     /\ R.accok
